@@ -44,6 +44,47 @@ impl UserFunction for Slow {
     }
 }
 
+/// an *impure* cacheable function: every real invocation returns a fresh ticket.  Within one evaluation the cache makes
+/// every call with the same argument observe the first ticket — in every sequential order of evaluations — so
+/// `[stamp(x), nc(x), stamp(x)]` is `[t, _, t]` and a later rule's `stamp(x)` is `t` again.  A cache that is shared
+/// between concurrent evaluations (or reset by another one) breaks exactly that.
+struct Stamp {
+    next: Arc<AtomicUsize>,
+}
+
+#[async_trait]
+impl UserFunction for Stamp {
+    async fn call(&self, _params: Value) -> FunctionResult {
+        tokio::task::yield_now().await;
+        Ok(Value::Int(self.next.fetch_add(1, Ordering::SeqCst) as i128))
+    }
+    fn name(&self) -> &'static str {
+        "stamp"
+    }
+    fn cacheable(&self) -> bool {
+        true
+    }
+}
+
+/// None = consistent; Some(description) otherwise
+fn stamp_inconsistency(os: &Result<Vec<reval::ruleset::Outcome>, reval::Error>) -> Option<String> {
+    let os = match os {
+        Ok(os) => os,
+        Err(e) => return Some(format!("evaluation failed: {}", e)),
+    };
+    let first = match os.first().map(|o| &o.value) {
+        Some(Ok(Value::Vec(xs))) if xs.len() == 3 => xs.clone(),
+        other => return Some(format!("unexpected first outcome {:?}", other.map(|r| r.as_ref().map_err(|e| e.to_string())))),
+    };
+    if first[0] != first[2] {
+        return Some(format!("[stamp(x), nc(x), stamp(x)] = [{}, _, {}]: the second call did not observe the first result", first[0], first[2]));
+    }
+    match os.get(1).map(|o| &o.value) {
+        Some(Ok(v)) if *v == first[0] => None,
+        other => Some(format!("a later rule's stamp(x) = {:?}, the first rule's was {}", other.map(|r| r.as_ref().map_err(|e| e.to_string())), first[0])),
+    }
+}
+
 fn static_assertions(rs: &RuleSet, e: &Expr, facts: &Value, input: &Input) {
     assert_send_sync::<RuleSet>();
     assert_send_sync::<Rule>();
@@ -158,6 +199,54 @@ fn main() {
             runs += 1;
             if o != seq[t % inputs.len()] {
                 mismatches.push(format!("tokio input={} got {} want {}", t % inputs.len(), o, seq[t % inputs.len()]));
+            }
+        }
+    }
+    // (3) an impure cacheable function: each evaluation must be self-consistent, as it is in every sequential order
+    let rs2 = Arc::new(
+        ruleset()
+            .with_rule(Rule::parse("// s0\n[stamp(x), nc(x), stamp(x)]").unwrap())
+            .unwrap()
+            .with_rule(Rule::parse("// s1\nstamp(x)").unwrap())
+            .unwrap()
+            .with_function(Stamp { next: Arc::new(AtomicUsize::new(0)) })
+            .unwrap()
+            .with_function(Slow { name: "nc", calls: calls.clone(), cacheable: false })
+            .unwrap()
+            .build(),
+    );
+    for i in inputs.iter().take(3) {
+        runs += 1;
+        if let Some(why) = stamp_inconsistency(&rt1.block_on(rs2.evaluate(i))) {
+            mismatches.push(format!("sequential stamp run: {}", why));
+        }
+    }
+    for _ in 0..rounds {
+        // tasks on the multi-threaded runtime, all on the same input (same cache key)
+        let hs: Vec<_> = (0..32)
+            .map(|t| {
+                let rs2 = rs2.clone();
+                let inp = inputs[t % 2].clone();
+                rt.spawn(async move { stamp_inconsistency(&rs2.evaluate(&inp).await) })
+            })
+            .collect();
+        for h in hs {
+            runs += 1;
+            match rt.block_on(h) {
+                Ok(None) => {}
+                Ok(Some(why)) => mismatches.push(format!("tokio, impure cacheable function: {}", why)),
+                Err(e) => mismatches.push(format!("tokio: a spawned evaluation panicked ({})", e)),
+            }
+        }
+        // interleaved on ONE thread (join of several evaluations): no parallelism needed to expose shared state
+        let outs = rt1.block_on(async {
+            let (a, b, c) = tokio::join!(rs2.evaluate(&inputs[0]), rs2.evaluate(&inputs[0]), rs2.evaluate(&inputs[1]));
+            vec![stamp_inconsistency(&a), stamp_inconsistency(&b), stamp_inconsistency(&c)]
+        });
+        for o in outs {
+            runs += 1;
+            if let Some(why) = o {
+                mismatches.push(format!("one thread, three interleaved evaluations, impure cacheable function: {}", why));
             }
         }
     }
